@@ -40,7 +40,9 @@ PipelineEv ==
                    wf == WellFormedReason(d, net)
                IN  IF df.field # "ok" THEN Flag("field", df)
                    ELSE IF \E t \in TreesOf(d) : ~FramingOK(t) THEN Flag("framing", [field |-> "plutus-data"])
-                   ELSE IF wf # "ok" THEN Flag("malformed", [reason |-> wf])
+                   ELSE IF wf # "ok" THEN Flag("malformed", [reason |-> wf,
+                                                         what |-> IF wf = "empty-entry" THEN d.empties[1]
+                                                                  ELSE IF wf = "duplicate-entry" THEN d.dups[1] ELSE ""])
                    ELSE IF first # "" /\ e.payload # first THEN Flag("layout", [layout |-> e.layout])
                    ELSE bad
 
